@@ -136,6 +136,14 @@ Theorem C15_cross_proto_reference : forall l k p encl n alias,
 Proof. exact cross_proto_reference. Qed.
 Print Assumptions C15_cross_proto_reference.
 
+(* the qualifier is the key the imported proto is registered under in the importing proto (its
+   `as` name, else its own name), found by identity: other imports' names play no role, even
+   when one of them equals the imported proto's own name *)
+Theorem C15_import_name_is_key : forall members k id own,
+  In (k, id) members -> NoDup (map snd members) -> definition_name members id own = k.
+Proof. exact definition_name_is_key. Qed.
+Print Assumptions C15_import_name_is_key.
+
 (* ---- output files --------------------------------------------------------------------------------- *)
 
 Theorem C15_out_files : forall base ext,
@@ -260,6 +268,22 @@ Proof.
   cbv zeta. split.
   - intros w [H|[H|[H|[]]]]; subst w; vm_compute; reflexivity.
   - vm_compute. repeat split; reflexivity.
+Qed.
+
+(* `import bb "base.bitproto"` (proto base) next to `import base "other.bitproto"`; a capitalised
+   prefix sharing its letters with the message it prefixes *)
+Example C15_nonvacuous_import_and_prefix :
+  let members := [(Str "bb", 0%N); (Str "base", 1%N)] in
+  NoDup (map snd members) /\
+  definition_name members 0%N (Str "base") = Str "bb" /\
+  definition_name members 1%N (Str "other") = Str "base" /\
+  is_prefix (Str "Lib_") = true /\ is_prefix (Str "MY_Li_") = true /\
+  def_name LC KMessage (Str "Lib_") [Str "Link"] (Str "Bit") = Str "LibLinkBit" /\
+  def_name LC KEnumField (Str "Lib_") [Str "Link"] (Str "LEVEL_HIGH") = Str "LIB_LINK_LEVEL_HIGH" /\
+  size_const LC (def_name LC KMessage (Str "MY_Li_") [Str "Link"] (Str "Bit")) = Str "BYTES_LENGTH_MY_LI_LINK_BIT".
+Proof.
+  cbv zeta. split; [repeat constructor; cbn; intuition discriminate|].
+  vm_compute. repeat split; reflexivity.
 Qed.
 
 Example C15_nonvacuous_idents :
